@@ -108,12 +108,13 @@ Proof.
     destruct (is_manifest (d_mt d)); auto. rewrite r_index_oci_tag. now rewrite names_spec_oci_tag.
   - destruct (get N.eqb (d_dig d) (o_blobs st)); split; auto.
   - split; auto.
-  - destruct r as [m|g|]; try (split; auto; fail).
+  - destruct r as [m|g|]; cbn [foreign_digest_ref]; try (split; auto; fail).
     + destruct (is_some (get N.eqb (d_dig d) (o_blobs st))); [|split; auto].
       cbn [fst o_blobs o_res andb]. split; auto. intro n.
       change (names_of (r_index (oci_tag d (RName m) (o_res st))) n = (if m =? n then Some d else names_of (r_index (o_res st)) n)).
       rewrite r_index_oci_tag. now rewrite names_spec_oci_tag.
-    + destruct (is_some (get N.eqb (d_dig d) (o_blobs st))); [|split; auto].
+    + destruct (negb (g =? d_dig d)); [split; auto|].
+      destruct (is_some (get N.eqb (d_dig d) (o_blobs st))); [|split; auto].
       cbn [fst o_blobs o_res]. split; auto. intro n.
       change (names_of (r_index (oci_tag d (RDig g) (o_res st))) n = names_of (r_index (o_res st)) n).
       rewrite r_index_oci_tag. now rewrite names_spec_oci_tag.
@@ -160,7 +161,7 @@ Section OciConc.
   Definition oremaining (t : othread) : list op :=
     match ot_pc t with
     | OPush2 d c => [Push d c]
-    | OTag2 d r | OTag3 d r => [Tag d r]
+    | OTagIx d r | OTag2 d r | OTag3 d r => [Tag d r]
     | OUntag2 r => [Untag r]
     | _ => []
     end ++ ot_ops t.
@@ -174,6 +175,7 @@ Section OciConc.
     match ot_pc t with
     | OPush2 d c => verify d c = true /\ canon_desc U d /\ c = B (d_dig d)
     | OPush3 d => canon_desc U d /\ present s (d_dig d)
+    | OTagIx d r => canon_desc U d /\ present s (d_dig d)
     | OTag2 d r | OTag3 d r => present s (d_dig d)
     | _ => True
     end.
@@ -229,13 +231,15 @@ Section OciConc.
     othread_step b s t = Some (s', t', lg, ix, un) -> oremaining t = lg ++ oremaining t'.
   Proof.
     unfold othread_step, oremaining. destruct t as [pc ops]; cbn [ot_pc ot_ops].
-    destruct pc as [|d c|d|d|d r|d r|r].
+    destruct pc as [|d c|d|d|d r|d r|d r|r].
     - destruct ops as [|o rest]; [discriminate|].
       destruct o; try (intro H; injection H as <- <- <- <- <-; reflexivity).
       + destruct (get N.eqb (d_dig d) (o_blobs s)); [intro H; injection H as <- <- <- <- <-; reflexivity|].
         destruct (verify d c); intro H; injection H as <- <- <- <- <-; reflexivity.
       + destruct r; try (intro H; injection H as <- <- <- <- <-; reflexivity);
-          (destruct (is_some _); [|intro H; injection H as <- <- <- <- <-; reflexivity];
+          (destruct (foreign_digest_ref d _); [intro H; injection H as <- <- <- <- <-; reflexivity|];
+           destruct (is_some _); [|intro H; injection H as <- <- <- <- <-; reflexivity];
+           destruct (is_manifest (d_mt d)); [intro H; injection H as <- <- <- <- <-; reflexivity|];
            destruct (ref_eqb _ _); intro H; injection H as <- <- <- <- <-; reflexivity).
       + destruct r; try (intro H; injection H as <- <- <- <- <-; reflexivity);
           (destruct (get ref_eqb _ _) as [d0|]; [|intro H; injection H as <- <- <- <- <-; reflexivity];
@@ -245,6 +249,8 @@ Section OciConc.
     - destruct (get N.eqb (d_dig d) (o_blobs s)); intro H; injection H as <- <- <- <- <-;
         destruct (is_manifest (d_mt d)); reflexivity.
     - intro H; injection H as <- <- <- <- <-; reflexivity.
+    - destruct (get N.eqb (d_dig d) (o_blobs s)); intro H; injection H as <- <- <- <- <-;
+        cbn [ot_pc ot_ops]; [destruct (ref_eqb r (RDig (d_dig d))); reflexivity | reflexivity].
     - intro H; injection H as <- <- <- <- <-; reflexivity.
     - intro H; injection H as <- <- <- <- <-; reflexivity.
     - intro H; injection H as <- <- <- <- <-; reflexivity.
@@ -262,7 +268,7 @@ Section OciConc.
                 forall n, names_of (r_index (o_res s')) n = vnames (o_blobs s) (names_of (r_index (o_res s))) o n)).
   Proof.
     intros Hok Hnd HB. unfold othread_step, othread_ok in *. destruct t as [pc ops]; cbn [ot_pc ot_ops] in *.
-    destruct pc as [|d c|d|d|d r|d r|r].
+    destruct pc as [|d c|d|d|d r|d r|d r|r].
     - destruct ops as [|o rest]; [discriminate|].
       assert (Hdone : o_blobs s = vblobs (o_blobs s) o ->
                       (forall n, names_of (r_index (o_res s)) n = vnames (o_blobs s) (names_of (r_index (o_res s))) o n) ->
@@ -282,12 +288,13 @@ Section OciConc.
           -- intro H. injection H as <- <- <- <- <-. split; auto.
           -- apply Hdone; [simpl; now rewrite E, V | intro; reflexivity].
       + (* Tag *)
-        destruct r as [m|g|]; try (apply Hdone; [reflexivity | intro; reflexivity]).
+        destruct r as [m|g|]; cbn [foreign_digest_ref]; try (apply Hdone; [reflexivity | intro; reflexivity]).
         * destruct (is_some (get N.eqb (d_dig d) (o_blobs s))) eqn:E.
-          -- destruct (ref_eqb _ _); intro H; injection H as <- <- <- <- <-; split; auto.
+          -- destruct (is_manifest (d_mt d)); [|destruct (ref_eqb _ _)]; intro H; injection H as <- <- <- <- <-; split; auto.
           -- apply Hdone; [reflexivity | intro n; simpl; now rewrite E].
-        * destruct (is_some (get N.eqb (d_dig d) (o_blobs s))) eqn:E.
-          -- destruct (ref_eqb _ _); intro H; injection H as <- <- <- <- <-; split; auto.
+        * destruct (negb (g =? d_dig d)); [apply Hdone; [reflexivity | intro; reflexivity]|].
+          destruct (is_some (get N.eqb (d_dig d) (o_blobs s))) eqn:E.
+          -- destruct (is_manifest (d_mt d)); [|destruct (ref_eqb _ _)]; intro H; injection H as <- <- <- <- <-; split; auto.
           -- apply Hdone; [reflexivity | intro; reflexivity].
       + (* Untag *)
         destruct r as [m|g|]; try (apply Hdone; [reflexivity | intro; reflexivity]).
@@ -316,6 +323,11 @@ Section OciConc.
       intro H. injection H as <- <- <- <- <-. cbn [o_blobs o_res]. rewrite r_index_tag. split.
       + now apply (NoDup_put ref_eqb ref_eqb_spec).
       + left. repeat split; auto. intro n. apply names_put_dig.
+    - (* Tag: graph.index of the manifest *)
+      destruct (get N.eqb (d_dig d) (o_blobs s)) as [c|] eqn:E; intro H; injection H as <- <- <- <- <-.
+      + cbn [o_blobs o_res]. split; auto.
+      + split; auto. right. exists (Tag d r). split; auto. split; auto. intro n.
+        destruct r as [m|g|]; simpl; auto. now rewrite E.
     - intro H. injection H as <- <- <- <- <-. cbn [o_blobs o_res]. rewrite r_index_tag. split.
       + now apply (NoDup_put ref_eqb ref_eqb_spec).
       + left. repeat split; auto. intro n. apply names_put_dig.
@@ -344,7 +356,7 @@ Section OciConc.
   Lemma othread_ok_mono s1 s2 t :
     (forall g, present s1 g -> present s2 g) -> othread_ok s1 t -> othread_ok s2 t.
   Proof.
-    unfold othread_ok. intro H. destruct (ot_pc t); auto. intros [A B0]. split; auto.
+    unfold othread_ok. intro H. destruct (ot_pc t); auto; intros [A B0]; split; auto.
   Qed.
 
   (* the four kinds of atomic steps, as far as blobs, graph and the ghost index set go *)
@@ -356,14 +368,15 @@ Section OciConc.
     \/ (exists d c, ot_pc t = OPush2 d c /\ canon_desc U d /\ c = B (d_dig d) /\
                     s' = mkOci (put N.eqb (d_dig d) c (o_blobs s)) (o_res s) (o_graph s) /\
                     ot_pc t' = OPush3 d /\ ix = [] /\ un = None)
-    \/ (exists d c, ot_pc t = OPush3 d /\ canon_desc U d /\ get N.eqb (d_dig d) (o_blobs s) = Some c /\
+    \/ (exists d c, (ot_pc t = OPush3 d \/ exists r, ot_pc t = OTagIx d r) /\ canon_desc U d /\
+                    get N.eqb (d_dig d) (o_blobs s) = Some c /\
                     s' = mkOci (o_blobs s) (o_res s) (g_index d (succ_of (gk d) c) (o_graph s)) /\
                     (forall d', ot_pc t' <> OPush3 d') /\ othread_ok s t' /\ ix = [gk d] /\ un = None)
     \/ (exists d, b = true /\ canon_desc U d /\ s' = fst (oci_step s (Delete d)) /\
                   ot_pc t' = OIdle /\ ot_pc t = OIdle /\ ix = [] /\ un = Some (gk d)).
   Proof.
     unfold othread_step. destruct t as [pc ops]; cbn [ot_pc ot_ops].
-    destruct pc as [|d c|d|d|d r|d r|r]; intros Hok Hwf.
+    destruct pc as [|d c|d|d|d r|d r|d r|r]; intros Hok Hwf.
     - destruct ops as [|o rest]; [discriminate|].
       assert (Hwfo : wf_op o) by (apply Hwf; unfold oremaining; simpl; now left).
       assert (HA : forall pc', (match pc' with OPush3 _ => False | _ => True end) ->
@@ -379,8 +392,12 @@ Section OciConc.
         intro H. left. eapply (HA (OPush2 d c) I); [|exact H].
         unfold othread_ok; cbn [ot_pc]. destruct Hwfo as [Hc Hb]. simpl in Hc, Hb. auto.
       + destruct r as [m|g|]; try (intro H; left; eapply (HA OIdle I I); exact H);
-          (destruct (get N.eqb (d_dig d) (o_blobs s)) eqn:E; cbn [is_some];
+          (destruct (foreign_digest_ref d _); [intro H; left; eapply (HA OIdle I I); exact H|];
+           destruct (get N.eqb (d_dig d) (o_blobs s)) eqn:E; cbn [is_some];
            [|intro H; left; eapply (HA OIdle I I); exact H];
+           destruct (is_manifest (d_mt d));
+           [intro H; left; eapply (HA (OTagIx d _) I); try exact H;
+            unfold othread_ok, present; cbn [ot_pc]; rewrite E; split; [exact (proj1 Hwfo) | discriminate]|];
            destruct (ref_eqb _ _); intro H; left;
            [eapply (HA (OTag3 d _) I) | eapply (HA (OTag2 d _) I)]; try exact H;
            unfold othread_ok, present; cbn [ot_pc]; rewrite E; discriminate).
@@ -399,6 +416,12 @@ Section OciConc.
       repeat split; auto; try (destruct (is_manifest (d_mt d)); discriminate).
       unfold othread_ok. cbn [ot_pc]. destruct (is_manifest (d_mt d)); exact I.
     - intro H. injection H as <- <- <- <- <-. left. cbn [ot_pc o_blobs o_graph]. repeat split; auto; discriminate.
+    - (* Tag: index step *)
+      destruct Hok as (Hc & Hp). unfold present in Hp.
+      destruct (get N.eqb (d_dig d) (o_blobs s)) as [c|] eqn:E; [|congruence].
+      intro H. injection H as <- <- <- <- <-. right. right. left. exists d, c. cbn [ot_pc].
+      split; [right; eauto|]. repeat split; auto; try (destruct (ref_eqb r (RDig (d_dig d))); discriminate).
+      unfold othread_ok, present. cbn [ot_pc]. destruct (ref_eqb r (RDig (d_dig d))); rewrite E; discriminate.
     - intro H. injection H as <- <- <- <- <-. left. cbn [ot_pc o_blobs o_graph]. repeat split; auto; discriminate.
     - intro H. injection H as <- <- <- <- <-. left. cbn [ot_pc o_blobs o_graph]. repeat split; auto; discriminate.
     - intro H. injection H as <- <- <- <- <-. left. cbn [ot_pc o_blobs o_graph]. repeat split; auto; discriminate.
@@ -548,7 +571,8 @@ Section OciConc.
       intros g Hp. destruct (Hix g Hp) as [H|(tw & dw & Hin & Hpcw & Hkw)]; [left; now right|].
       apply in_app_or in Hin as [Hin|[Heq|Hin]].
       + right. exists tw, dw. split; auto. apply in_or_app. now left.
-      + subst tw. left. left. rewrite Hpc in Hpcw. injection Hpcw as <-. subst g. exact Hc.
+      + subst tw. left. left. destruct Hpc as [Hpc|(r0 & Hpc)]; rewrite Hpc in Hpcw; [|discriminate].
+        injection Hpcw as <-. subst g. exact Hc.
       + right. exists tw, dw. split; auto. apply in_or_app. right. now right.
     - (* C: ix_sub *)
       intros k [<-|Hk]; [|now apply Hsub]. split; [exact Hc|]. unfold present. cbn [o_blobs]. rewrite k_dig_gk, Hpres. discriminate.
@@ -718,3 +742,12 @@ Proof.
   simpl. destruct (get N.eqb (d_dig d) (o_blobs (oc_store (oconf_run (oconf_init progs) sched)))) as [c|] eqn:E; [|discriminate].
   intro X. injection X as <- _. apply (H _ _ E).
 Qed.
+
+(* known finding oci-racing-pushes-all-succeed, on the model: a schedule after which both
+   goroutines have passed the stat check and renamed their temp file onto the blob path --
+   both Push calls return nil, whereas in every sequential order the second is refused *)
+Definition orace_progs : list (list op) := [[Push ex_layer (ox_B 2)]; [Push ex_layer (ox_B 2)]].
+Lemma orace_both_renamed :
+  map ot_pc (oc_threads (oconf_run (oconf_init orace_progs) [0; 1; 0; 1]%nat)) = [OPush3 ex_layer; OPush3 ex_layer] /\
+  snd (run oci_step oci_init (concat orace_progs)) = [OOk; OErr EAlreadyExists].
+Proof. vm_compute. split; reflexivity. Qed.
